@@ -206,10 +206,25 @@ impl Gen {
     fn any_ty(&mut self) -> Ty {
         if !self.structs.is_empty() && self.rng.chance(1, 4) {
             let i = self.rng.below(self.structs.len());
+            // one time in four the reference spells the declared struct with one attribute type changed
+            // (same name, same attribute names and order: seeded change C01-e); the analyzer looks the
+            // name up only, so the declaration is accepted and the value is of a *different* type
+            if self.rng.chance(1, 4) {
+                return self.variant_struct_ty(i);
+            }
             self.struct_ty(i)
         } else {
             Ty::Prim(self.prim())
         }
+    }
+
+    /// the declared struct `i` with the type of one attribute replaced by another primitive
+    fn variant_struct_ty(&mut self, i: usize) -> Ty {
+        let (n, mut attrs) = self.structs[i].clone();
+        let k = self.rng.below(attrs.len());
+        let other = if attrs[k].1 == Ty::Prim(PT::Bool) { PT::I32 } else { PT::Bool };
+        attrs[k].1 = Ty::Prim(other);
+        Ty::Struct(n, attrs)
     }
 
     fn bad_struct_ty(&mut self) -> Ty {
@@ -267,6 +282,26 @@ impl Gen {
         }
         if self.fault("B3-field") {
             let names = self.visible_names();
+            // a value whose struct type has a registered name but not the registered attributes
+            let mut variant: Vec<(String, String)> = vec![];
+            for n in &names {
+                if let Some((Ty::Struct(sn, attrs), _)) = self.lookup(n) {
+                    if self.structs.iter().any(|(dn, da)| *dn == sn && *da != attrs) {
+                        for (an, at) in &attrs {
+                            if at == t {
+                                variant.push((n.clone(), an.clone()));
+                            }
+                        }
+                        if let Some((an, _)) = attrs.first() {
+                            variant.push((n.clone(), an.clone()));
+                        }
+                    }
+                }
+            }
+            if !variant.is_empty() && self.frng.chance(2, 3) {
+                let (n, a) = variant[self.frng.below(variant.len())].clone();
+                return Some(EV::Field(n, a));
+            }
             return Some(match self.frng.below(3) {
                 0 => EV::Field(UNKNOWN.to_string(), "a".to_string()),
                 1 if !names.is_empty() => {
@@ -541,6 +576,20 @@ impl Gen {
         let t = Ty::Prim(p);
         let left = self.expr(&t, depth)?;
         let right = if self.fault("B9-cmp-type") {
+            // one time in three, with a struct-typed value in sight: struct on the left, primitive on
+            // the right (both clauses of B9 violated at once)
+            let names = self.visible_names();
+            let sv: Option<String> = names
+                .iter()
+                .find(|n| matches!(self.lookup(n), Some((Ty::Struct(..), _))))
+                .cloned();
+            if let (Some(n), true) = (sv, self.frng.chance(1, 3)) {
+                return Some(Cmp {
+                    left: Ex::single(EV::Var(n)),
+                    cond: *self.rng.pick(&ALL_CND),
+                    right: Ex::single(EV::Lit(prim_lit(&mut self.frng, p))),
+                });
+            }
             let q = self.other_prim(&t);
             Ex::single(EV::Lit(prim_lit(&mut self.frng, q)))
         } else {
@@ -561,10 +610,26 @@ impl Gen {
             .filter(|n| matches!(self.lookup(n), Some((Ty::Struct(..), _))))
             .collect();
         let n = (*sv.first()?).clone();
+        // half of the time the right side has another type (a literal, or a value of another struct
+        // type): both clauses of B9 are violated and the order of the two guards decides the error
+        // kind (seeded change C14-e)
+        let right = if self.frng.chance(1, 2) {
+            let lt = self.lookup(&n).map(|x| x.0);
+            let other: Option<String> = sv
+                .iter()
+                .find(|m| self.lookup(m).map(|x| x.0) != lt)
+                .map(|m| (*m).clone());
+            match other {
+                Some(m) if self.frng.chance(1, 2) => Ex::single(EV::Var(m)),
+                _ => Ex::single(EV::Lit(prim_lit(&mut self.frng, PT::I32))),
+            }
+        } else {
+            Ex::single(EV::Var(n.clone()))
+        };
         Some(Cmp {
-            left: Ex::single(EV::Var(n.clone())),
+            left: Ex::single(EV::Var(n)),
             cond: Cnd::Eq,
-            right: Ex::single(EV::Var(n)),
+            right,
         })
     }
 
